@@ -121,6 +121,14 @@ pub fn install_panic_hook() {
             "<non-string panic payload>".to_string()
         };
         let loc = info.location().map(|l| format!("{}:{}", l.file(), l.line())).unwrap_or_else(|| "?".into());
+        if loc.contains("/sim/src/") && !loc.contains("/pdf/src/") {
+            // a panic in the harness's own code is a harness error, never a finding about the library
+            let line = format!("HARNESS-PANIC {} {}\n", loc, msg.lines().next().unwrap_or(""));
+            unsafe {
+                libc::write(2, line.as_ptr() as *const libc::c_void, line.len());
+            }
+            std::process::exit(2);
+        }
         let loc = shorten_path(&loc);
         let first_line: String = msg.lines().next().unwrap_or("").chars().take(100).collect();
         let text = format!("panic@{} {}", loc, first_line);
@@ -466,6 +474,19 @@ pub fn supervisor_main(info: &CheckInfo, total_runs: u64, tier: Tier, verif_seed
                     }
                 };
                 let timed_out = stderr.contains("SUPERVISOR-TIMEOUT");
+                if let Some(l) = stderr.lines().find(|l| l.starts_with("HARNESS-PANIC")) {
+                    harness_errors.push(format!("run {}: {}", i, l));
+                    done_runs += 1;
+                    let next = i + slots[s].stride;
+                    if next < slots[s].end && harness_errors.len() < 20 {
+                        gen += 1;
+                        let (stride, end) = (slots[s].stride, slots[s].end);
+                        slots[s] = spawn_worker(&exe, id, tier, verif_seed, next, stride, end, s, &work, &tx, gen);
+                    } else {
+                        live -= 1;
+                    }
+                    continue;
+                }
                 let (class, detail) = death_class(&status, &stderr, i, timed_out);
                 deaths += 1;
                 // When a whole class of runs dies (a change that makes many cases hang or overflow), every
